@@ -201,6 +201,21 @@ static void led_printparts(char *ai, char *pref, char *main,
 	term_commit();
 }
 
+/* read a key; the rest of a multi-byte character is read and dropped */
+static int led_readkey(void)
+{
+	char buf[2] = "";
+	int c = term_read();
+	int i, n;
+	if (c > 0 && (c & 0xc0) == 0xc0) {
+		buf[0] = c;
+		n = uc_len(buf);
+		for (i = 1; i < n; i++)
+			term_read();
+	}
+	return c;
+}
+
 /* continue reading the character starting with c */
 static char *led_readchar(int c, int kmap)
 {
@@ -213,12 +228,12 @@ static char *led_readchar(int c, int kmap)
 		return buf;
 	}
 	if (c == TK_CTL('k')) {		/* digraph */
-		c1 = term_read();
+		c1 = led_readkey();
 		if (TK_INT(c1))
 			return NULL;
 		if (c1 == TK_CTL('k'))
 			return "";
-		c2 = term_read();
+		c2 = led_readkey();
 		if (TK_INT(c2))
 			return NULL;
 		return conf_digraph(c1, c2);
@@ -342,7 +357,7 @@ static char *led_line(char *pref, char *post, char *ai, int ai_max, int *left,
 				sbuf_str(sb, reg_get(0, &lnmode));
 			break;
 		case TK_CTL('r'):
-			y = term_read();
+			y = led_readkey();
 			if (y > 0 && reg_get(y, &lnmode))
 				sbuf_str(sb, reg_get(y, &lnmode));
 			break;
